@@ -763,7 +763,7 @@ func (t *Transport) Clone() *Transport {
 		disableAutoDecode:     t.disableAutoDecode,
 		autoDecodeContentType: t.autoDecodeContentType,
 		forceHttpVersion:      t.forceHttpVersion,
-		httpRoundTripWrappers: t.httpRoundTripWrappers,
+		httpRoundTripWrappers: cloneSlice(t.httpRoundTripWrappers),
 	}
 	if len(tt.httpRoundTripWrappers) > 0 { // clone transport middleware
 		fn := func(req *http.Request) (*http.Response, error) {
